@@ -75,10 +75,12 @@ CHECKS["C08"] = {
     "technique": "Lean 4 proof over M-Orders (ledger invariants by induction over all event sequences) + trace validation of the real interpreter's Suspended lists against the model + protocol predicates on the trace",
     "text": "order_once (no id is ever handed to the host twice), reported_increasing (ids fresh and strictly increasing), issue_then_report (an issued, un-cancelled order is handed over by the very next report together with everything waiting), "
             "cancel_once (every cancellation event - explicit, rejected order promise, race loser - reaches the host exactly once, in order) and report_drains are Lean theorems over arbitrary interleavings of ledger events. "
+            "M-Comb: all_fulfilled_any_order / all_order_independent / all_rejected_first / allSettled_waits / allSettled_not_pending / any_first_fulfilled / any_all_rejected (for any number of inputs and EVERY order in which the host settles them, "
+            "Promise.all / allSettled / any settle exactly when the inputs decide them - not before, and never later: no lost wake-up) are Lean theorems; the model is compared with tsrun and the reference engine after every settlement of generated orders. "
             "Generated scripts (orders, awaits, all/race/any, getId, cancels) run under host policies (value/error/object/promise/order-promise responses, early and late settlement, spurious steps, junk answers, forced GC); "
             "the ledger events of each run are replayed through the model and its reports must equal the real Suspended lists; exactly-once, payload integrity, progress (no Suspended with nothing outstanding), completion, "
             "catchable error responses and response values are evaluated on the implementation's trace.",
-    "note": "The script and the promise machinery are abstracted to ledger events (reconstructed from script markers and host actions); progress/quiescence/catchability are checked per run, not proved. Known findings: Promise.any never settles over pending promises; "
+    "note": "The script and the promise machinery are abstracted to ledger events (reconstructed from script markers and host actions); progress/quiescence/catchability are checked per run, not proved. Known findings: "
             "__cancelOrder__ unchecked; loser-then-rejected reported twice; cancellations buffered at completion are dropped.",
     "design_ref": "DESIGN.md §4 C08",
 }
